@@ -30,7 +30,7 @@ def _copy_val(v, memo):
         i = id(v)
         if i in memo:
             return memo[i]
-        r = []
+        r = type(v)() if type(v) is not list else []      # list subclasses of the models (ADeque) keep their type
         memo[i] = r
         r.extend(_copy_val(x, memo) for x in v)
         return r
